@@ -72,6 +72,20 @@ impl TimeZone {
             None
         };
 
+        // Every transition has to point to an existing local time type
+        if transitions
+            .iter()
+            .any(|transition| transition.local_time_type_index >= local_time_types.len())
+        {
+            return Err(TimeZoneError::InvalidTzFile(
+                "Invalid local time type index",
+            ));
+        }
+        // Without a footer rule, the first local time type is used if there are no transitions
+        if local_time_types.is_empty() && extra_rule.is_none() {
+            return Err(TimeZoneError::InvalidTzFile("No local time types found"));
+        }
+
         Ok(Self {
             transitions,
             local_time_types,
